@@ -507,6 +507,7 @@ class Slice:
         out = []
         seen = set()
         work = []
+        defs = self.fn.defs()
 
         def push_op(o):
             c = op_const(o) if isinstance(o, dict) else None
@@ -521,6 +522,14 @@ class Slice:
             fl = place_fields(p)
             if fl:
                 out.append(("field", p["l"], tuple(fl), p))
+                # `_t.i` where _t is defined once, as a tuple literal: continue with that element only
+                first = next((e for e in p["p"] if isinstance(e, dict) and "f" in e), None)
+                dfs = defs.get(p["l"], ())
+                if first is not None and len(dfs) == 1 and dfs[0]["k"] == "assign" and not dfs[0]["partial"] and \
+                        dfs[0]["rv"]["k"] == "agg" and dfs[0]["rv"].get("ak") == "tuple" and first.get("i", -1) < len(dfs[0]["rv"]["ops"]) and \
+                        first.get("i", -1) >= 0:
+                    push_op(dfs[0]["rv"]["ops"][first["i"]])
+                    return
             for e in p["p"]:
                 if isinstance(e, dict) and "index" in e:
                     work.append((e["index"], None))
